@@ -9,7 +9,7 @@ from __future__ import annotations
 
 import ast
 import os
-from typing import Dict, Iterable, List, Optional, Tuple
+from typing import Dict, Iterable, List, Optional, Set, Tuple
 
 PKG = "xandikos"
 
@@ -157,6 +157,26 @@ class _MatchDesugar(ast.NodeTransformer):
     statement for the CFG builder."""
 
     _n = 0
+
+    def visit_With(self, node: ast.With):
+        """`with contextlib.suppress(A, B): body` is `try: body / except (A, B): pass`."""
+        self.generic_visit(node)
+        for i, it in enumerate(node.items):
+            c = it.context_expr
+            if isinstance(c, ast.Call) and (dotted(c.func) or "") in ("contextlib.suppress", "suppress") and it.optional_vars is None \
+                    and c.args and not c.keywords and not any(isinstance(a, ast.Starred) for a in c.args):
+                inner = node.body if i == len(node.items) - 1 else [ast.copy_location(ast.With(items=node.items[i + 1:], body=node.body), node)]
+                typ = c.args[0] if len(c.args) == 1 else ast.Tuple(elts=list(c.args), ctx=ast.Load())
+                tr = ast.Try(body=inner, handlers=[ast.ExceptHandler(type=typ, name=None, body=[ast.Pass()])], orelse=[], finalbody=[])
+                ast.copy_location(tr, node)
+                ast.copy_location(tr.handlers[0], node)
+                ast.copy_location(tr.handlers[0].body[0], node)
+                ast.fix_missing_locations(tr)
+                if i == 0:
+                    return tr
+                out = ast.copy_location(ast.With(items=node.items[:i], body=[tr]), node)
+                return out
+        return node
 
     def visit_Match(self, node: "ast.Match"):
         self.generic_visit(node)
@@ -310,6 +330,7 @@ class Program:
         self.methods_by_name: Dict[str, List[FuncInfo]] = {}
         self._load()
         self._link_classes()
+        self._rehome_moved()
         self.stats = {"calls_resolved": 0, "calls_external": 0, "calls_unresolved": 0}
 
     # ------------------------------------------------------------------ load
@@ -336,8 +357,135 @@ class Program:
                 tree = _MatchDesugar().visit(tree)
                 mod = ModuleInfo(modname, path, rel, tree, source)
                 self.modules[modname] = mod
+        self._undo_method_renames()
         for mod in self.modules.values():
             self._index_module(mod)
+
+    def _undo_method_renames(self):
+        """A method that was renamed consistently across a class hierarchy (`_import_one` -> `_write_one` in the base
+        class, every subclass and every caller) is the same program up to the spelling of one identifier.  When the
+        classes that defined method *m* in the reference tree now all lack it, the same set of classes defines a method
+        *n* unknown to the reference tree, and the identifier *m* is not used anywhere in the package any more, the
+        identifier *n* is spelled *m* again in the loaded syntax trees (definitions, attribute uses, keyword-free).
+        Every rule then sees - and checks - the renamed code under the name it knows."""
+        try:
+            from .inline import _REF_PATH
+            import json as _json
+            with open(_REF_PATH) as f:
+                d = _json.load(f)
+            ref_funcs, ref_classes = set(d.get("functions", [])), set(d.get("classes", []))
+        except (OSError, ValueError):
+            return
+        now: Dict[str, Set[str]] = {}        # class qualname -> method names (top-level classes)
+        for mn, mod in self.modules.items():
+            for st in mod.tree.body:
+                if isinstance(st, ast.ClassDef):
+                    now["%s.%s" % (mn, st.name)] = {x.name for x in st.body if isinstance(x, (ast.FunctionDef, ast.AsyncFunctionDef))}
+        missing: Dict[str, Set[str]] = {}
+        new: Dict[str, Set[str]] = {}
+        for cq, names in now.items():
+            if cq not in ref_classes:
+                continue
+            ref_names = {q[len(cq) + 1:] for q in ref_funcs if q.startswith(cq + ".") and "." not in q[len(cq) + 1:]}
+            for m in ref_names - names:
+                missing.setdefault(m, set()).add(cq)
+            for n in names - ref_names:
+                new.setdefault(n, set()).add(cq)
+        if not missing or not new:
+            return
+        used: Set[str] = set()
+        for mod in self.modules.values():
+            for x in ast.walk(mod.tree):
+                if isinstance(x, ast.Attribute):
+                    used.add(x.attr)
+                elif isinstance(x, ast.Name):
+                    used.add(x.id)
+                elif isinstance(x, (ast.FunctionDef, ast.AsyncFunctionDef)):
+                    used.add(x.name)
+        pairs = {}
+        for m, cs in missing.items():
+            if m in used or m.startswith("__"):
+                continue
+            cands = [n for n, cs2 in new.items() if cs2 == cs and not n.startswith("__")]
+            if len(cands) == 1 and sum(1 for m2, c2 in missing.items() if c2 == cs and m2 not in used) == 1:
+                pairs[cands[0]] = m
+        if not pairs:
+            return
+        self.renamed_methods = dict(pairs)
+        for mod in self.modules.values():
+            for x in ast.walk(mod.tree):
+                if isinstance(x, ast.Attribute) and x.attr in pairs:
+                    x.attr = pairs[x.attr]
+                elif isinstance(x, (ast.FunctionDef, ast.AsyncFunctionDef)) and x.name in pairs:
+                    x.name = pairs[x.name]
+
+    def _rehome_moved(self):
+        """A function or class that the reference tree defines as ``old.module.Name`` and that now lives in another
+        module, still importable under the old name (``from .errors import LockedError`` in the old module), keeps its
+        reference identity: it is registered - and named in every obligation - as ``old.module.Name``.  Code moves
+        between modules are then invisible to the rules; names inside the body are still resolved in the module that
+        really holds it."""
+        try:
+            from .inline import _REF_PATH
+            import json as _json
+            with open(_REF_PATH) as f:
+                d = _json.load(f)
+            ref_funcs, ref_classes = set(d.get("functions", [])), set(d.get("classes", []))
+        except (OSError, ValueError):
+            return
+        ref_all = ref_funcs | ref_classes
+
+        def rename_func(fi, new_q):
+            old_q = fi.qualname
+            for q in [q for q in list(self.functions) if q == old_q or q.startswith(old_q + ".")]:
+                g = self.functions.pop(q)
+                if g.qualname == q:
+                    g.qualname = new_q + q[len(old_q):]
+                    for mn in sorted(self.modules, key=len, reverse=True):
+                        if g.qualname.startswith(mn + "."):
+                            g.home_module = mn     # the module the reference tree has it in
+                            break
+                self.functions[g.qualname] = g
+
+        for q in sorted(ref_classes):
+            if q in self.classes:
+                continue
+            try:
+                kind, obj = self._resolve_abs(q)
+            except Exception:
+                continue
+            if kind == "class" and obj.qualname != q and obj.qualname not in ref_all and obj.name == q.rsplit(".", 1)[-1]:
+                old = obj.qualname
+                obj.qualname = q
+                self.classes.pop(old, None)
+                self.classes[q] = obj
+                for m in obj.methods.values():
+                    if m.qualname.startswith(old + "."):
+                        rename_func(m, q + m.qualname[len(old):])
+        for q in sorted(ref_funcs):
+            if q in self.functions or q.endswith(".<module>"):
+                continue
+            try:
+                kind, obj = self._resolve_abs(q)
+            except Exception:
+                continue
+            if kind == "const" and isinstance(obj, (ast.Name, ast.Attribute)) and dotted(obj):
+                # `parse_filter = CalendarFilterParser.parse_filter`: a module-level function turned into a static method,
+                # the old name rebound to it
+                mn = q.rsplit(".", 1)[0]
+                if mn in self.modules:
+                    try:
+                        kind, obj = self.resolve_dotted(self.modules[mn], dotted(obj))
+                    except Exception:
+                        continue
+                    if not (kind == "func" and obj.cls is not None and "staticmethod" in obj.decorators):
+                        continue
+                    if obj.qualname != q and obj.qualname not in ref_all and obj.name == q.rsplit(".", 1)[-1]:
+                        rename_func(obj, q)
+                continue
+            if kind == "func" and obj.qualname != q and obj.qualname not in ref_all and obj.name == q.rsplit(".", 1)[-1] \
+                    and obj.parent is None and (obj.cls is None or "staticmethod" in obj.decorators):
+                rename_func(obj, q)
 
     def _index_module(self, mod: ModuleInfo):
         def handle_imports(stmts):
@@ -665,11 +813,17 @@ class Program:
                 else:
                     raise NotConst(src(e))
             return out
-        if isinstance(e, (ast.Tuple, ast.List)):
-            vals = [self.fold(mod, x, env, _depth + 1) for x in e.elts]
-            return tuple(vals)
-        if isinstance(e, ast.Set):
-            return frozenset(self.fold(mod, x, env, _depth + 1) for x in e.elts)
+        if isinstance(e, (ast.Tuple, ast.List, ast.Set)):
+            vals = []
+            for x in e.elts:
+                if isinstance(x, ast.Starred):     # [*base, extra]
+                    sub = self.fold(mod, x.value, env, _depth + 1)
+                    if not isinstance(sub, (tuple, list, frozenset)):
+                        raise NotConst(src(e))
+                    vals.extend(sub)
+                else:
+                    vals.append(self.fold(mod, x, env, _depth + 1))
+            return frozenset(vals) if isinstance(e, ast.Set) else tuple(vals)
         raise NotConst(src(e))
 
     def _owner_of(self, expr: ast.AST) -> Optional[ModuleInfo]:
@@ -929,7 +1083,7 @@ class Program:
 
     # ------------------------------------------------------------- utilities
     def funcs_in_module(self, modname: str) -> List[FuncInfo]:
-        return [f for f in self.functions.values() if f.module.name == modname]
+        return [f for f in self.functions.values() if f.module.name == modname or getattr(f, "home_module", None) == modname]
 
     def all_funcs(self) -> List[FuncInfo]:
         return list(self.functions.values())
